@@ -99,6 +99,8 @@ def extra_family() -> list[dict]:
     fam.append(P("termmid", [S("a", tasks=[T("a.1"), T("a.2", "terminal"), T("a.3")]),
                               S("b", ["a"])]))
     fam.append(P("disabled", [S("a"), S("b", ["a"], enabled=False), S("c", ["b"])]))
+    fam.append(P("expired", [S("a"), S("b", ["a"], enabled="expired"), S("c", ["b"]), S("d", ["a"], tasks=[T("d.1", "poll", 1)])]))
+    fam.append(P("wfexpired", [S("a"), S("b", ["a"])], wfExpired=True))
     return fam
 
 
@@ -225,7 +227,7 @@ def build_workflow(prog: dict):
             ctx["continuePipelineOnFailure"] = True
         if not sd["failp"]:
             ctx["failPipeline"] = False
-        if sd["enabled"] is not None:
+        if sd["enabled"] is not None and sd["enabled"] != "expired":
             ctx["stageEnabled"] = sd["enabled"]
         if any(t["k"] == "verify" for t in sd["tasks"]):
             ctx["verification"] = {"type": "callable", "callable": "vverif", "max_retries": 99, "retry_delay_seconds": 900}
@@ -243,6 +245,8 @@ def build_workflow(prog: dict):
         if sd["join"] != "AND":
             kw["join_type"] = JoinType[sd["join"]]
             kw["join_threshold"] = sd["thr"]
+        if sd["enabled"] == "expired":       # the start window lapsed long ago (epoch milliseconds)
+            kw["start_time_expiry"] = 1
         if sd["mutex"]:
             kw["mutex_key"] = sd["mutex"]
         if sd["choice"]:
@@ -269,6 +273,8 @@ def build_workflow(prog: dict):
         wctx["_max_jumps"] = prog["maxJumps"]
     wf = Workflow.create(application="verif", name=prog["name"], stages=stages, context=wctx)
     wf.id = "W-" + prog["name"]
+    if prog.get("wfExpired"):
+        wf.start_time_expiry = 1
     return wf
 
 
@@ -447,10 +453,11 @@ def tla_program(prog: dict) -> dict:
         "choice": {s["ref"]: s["choice"] for s in st},
         "parent": {s["ref"]: s["parent"] for s in st},
         "owner": {s["ref"]: s["owner"] for s in st},
-        "enabled": {s["ref"]: ("none" if s["enabled"] is None else ("yes" if s["enabled"] else "no"))
+        "enabled": {s["ref"]: ("none" if s["enabled"] is None else "expired" if s["enabled"] == "expired" else ("yes" if s["enabled"] else "no"))
                     for s in st},
         "lazy": {s["ref"]: bool(s.get("lazy")) for s in st},
         "sigSame": bool(prog.get("sigSame")),
+        "wfExpired": bool(prog.get("wfExpired")),
         "maxJumps": prog.get("maxJumps", -1) if prog.get("maxJumps", -1) >= 0 else 10,
     }
 
